@@ -80,8 +80,46 @@ impl Property for C04 {
             Tier::Thorough => Budget { cases: 100_000, shards: 16, min_len: 24, max_len: 320 },
         }
     }
+    /// Many resources in one process: the accounting holds for every one of them, also past the registry's warning
+    /// threshold (10 000 nodes). Every resource gets one build / exit; the last 300 and a sample of the others are judged.
+    fn extra(&self, _tier: Tier) -> Option<Result<(u64, serde_json::Value), Failure>> {
+        use sentinel_core::base::{MetricEvent, ReadStat};
+        util::reset_all();
+        let t0 = clock::new_case_epoch() + 100;
+        clock::set_ms(t0);
+        let n = 10_300usize;
+        let tag = util::fresh_name("c04many");
+        let mut judged = 0u64;
+        let fail = |i: usize, what: String| Failure { clause: "many-resources-accounting".into(), key: "C04|many-resources-accounting".into(), detail: format!("resource number {} of {} distinct resources in one process: {}", i + 1, n, what), decoded: serde_json::json!({"resources": n, "failing_index": i}) };
+        for i in 0..n {
+            let name = format!("{}-{}", tag, i);
+            let e = match build(Req::new(&name, 2)) {
+                Ok(e) => e,
+                Err(m) => return Some(Err(fail(i, format!("entry blocked without rules: {}", m)))),
+            };
+            let judge = i >= n - 300 || i % 97 == 0;
+            if judge {
+                judged += 1;
+                let node = match stat::get_resource_node(&name) {
+                    Some(nd) => nd,
+                    None => return Some(Err(fail(i, "an entry was handed out but no statistics node is registered".into()))),
+                };
+                if node.current_concurrency() != 1 || node.sum(MetricEvent::Pass) != 2 {
+                    return Some(Err(fail(i, format!("after build: in-flight {} (want 1), pass {} (want 2)", node.current_concurrency(), node.sum(MetricEvent::Pass)))));
+                }
+                e.exit();
+                if node.current_concurrency() != 0 || node.sum(MetricEvent::Complete) != 2 {
+                    return Some(Err(fail(i, format!("after exit: in-flight {} (want 0), complete {} (want 2)", node.current_concurrency(), node.sum(MetricEvent::Complete)))));
+                }
+            } else {
+                e.exit();
+            }
+        }
+        util::reset_all();
+        Some(Ok((n as u64, serde_json::json!({"many_resources_sweep": {"distinct_resources_in_one_process": n, "judged": judged}}))))
+    }
     fn rule(&self) -> String {
-        "bytes -> 2-3 resources (the last one, in a third of the cases, named by the empty string or by a name with unicode, blanks, the separator and a line break), optional rule of one family (flow reject, isolation, hotspot concurrency, error-count breaker, system concurrency, flow throttling and hotspot QPS throttling that queue some entries, hotspot QPS reject, flow warm-up) on resource 0 / globally, 4-60 steps build(dt, resource, inbound|outbound, batch 1..5) / exit(dt, any open entry, with or without error); decisions are taken as observed, the accounting is compared after every step with an InFlight+event-list model on every resource node and on the global inbound node (current_concurrency, 10 s window Pass/Block/Complete/Error/Rt sums, default-window sums/qps/avg_rt/min_rt); non-trivial = >=1 blocked build, >=2 entries open at once on one resource, >=1 exit in a later bucket than its build, both traffic types present; distinct = distinct decoded cases".into()
+        "bytes -> 2-3 resources (the last one, in a third of the cases, named by the empty string or by a name with unicode, blanks, the separator and a line break), optional rule of one family (flow reject, isolation, hotspot concurrency, error-count breaker, system concurrency, flow throttling and hotspot QPS throttling that queue some entries, hotspot QPS reject, flow warm-up) on resource 0 / globally, 4-60 steps build(dt, resource, inbound|outbound, batch 1..5) / exit(dt, any open entry, with or without error); decisions are taken as observed, the accounting is compared after every step with an InFlight+event-list model on every resource node and on the global inbound node (current_concurrency, 10 s window Pass/Block/Complete/Error/Rt sums, default-window sums/qps/avg_rt/min_rt); plus (coverage.extra) one process with 10 300 distinct resources, each built and exited once, the last 300 and every 97th judged; non-trivial = >=1 blocked build, >=2 entries open at once on one resource, >=1 exit in a later bucket than its build, both traffic types present; distinct = distinct decoded cases".into()
     }
     fn assumptions(&self) -> Vec<String> {
         vec![
